@@ -69,7 +69,9 @@ class a_b:
 # every identifier over {_, a} up to length 5 (and a few with digits): all shapes of leading/trailing underscores
 import keyword as _keyword
 SHAPES = [n for k in range(1, 6) for n in (''.join(t) for t in itertools.product('_a', repeat=k)) if n.isidentifier() and not _keyword.iskeyword(n)] + \
-         ['_1', '__1', '__1__', '_1__', '_a1_', '__a_b__', '_a__b', 'a__', '_é', '__é__', '_é__']
+         ['_1', '__1', '__1__', '_1__', '_a1_', '__a_b__', '_a__b', 'a__', '_é', '__é__', '_é__',
+          # names that mean something special for *modules* only
+          '__main__', '__init__', '__main', 'main__', '__all__', '__doc__']
 SRC_PUB += 'class shapes:\n' + ''.join(f'    def {n}(self): pass\n' for n in SHAPES) + ''.join(f'{n} = 1\n' for n in SHAPES if n not in ('a',))
 
 
